@@ -27,6 +27,7 @@ type PropSpec struct {
 	Level    string
 	RunFn    func(r *Runner) // if set, replaces the mode-A pipeline entirely
 	SkipKind func(in Inst, kind string, tier string) bool
+	Corpus   func(tier string, seed int64) []Inst
 }
 
 type KnownFinding struct {
@@ -183,7 +184,11 @@ func cmdRun(args []string) int {
 func (r *Runner) modeA() {
 	spec := r.Spec
 	var insts []Inst
-	for _, in := range Corpus(r.Tier, r.Seed) {
+	corpus := Corpus
+	if spec.Corpus != nil {
+		corpus = spec.Corpus
+	}
+	for _, in := range corpus(r.Tier, r.Seed) {
 		if spec.Filter == nil || spec.Filter(in, r.Tier) {
 			insts = append(insts, in)
 		}
@@ -325,6 +330,13 @@ func (r *Runner) feFailure(p *FixPkg, stage, out string) {
 	r.violation(dir, fmt.Sprintf("front end (%s) failed for %v: %s", stage, fe.Types, trunc(out, 400)))
 }
 
+func asStrings(v interface{}) []string {
+	if s, ok := v.([]string); ok {
+		return s
+	}
+	return nil
+}
+
 func trunc(s string, n int) string {
 	if len(s) > n {
 		return s[:n] + "..."
@@ -383,6 +395,10 @@ func (r *Runner) symx(pkgs []*FixPkg) {
 			}
 			if model == nil {
 				r.inconsistent("violation without model in " + hr.Name)
+				continue
+			}
+			if len(r.Viol) >= 3 && kfID == "" {
+				r.Extra["unreplayed_sat_harnesses"] = append(asStrings(r.Extra["unreplayed_sat_harnesses"]), hr.Name+": "+what)
 				continue
 			}
 			outcome := r.S.replayModel(rel, model)
